@@ -89,7 +89,10 @@ def gen_case(rng):
             c["comps"].append(("not", [inner["id"]]))
         shapes.append(c)
         conds.append(c["id"])
-    orders = rng.sample([-2, -1, 0, 1, 2, 3, 5, 8], 4)
+    from decimal import Decimal
+    D = lambda x: Decimal(x)
+    # distinct values, several of them sharing their integer part
+    orders = rng.sample([D("-2"), D("-1.5"), D("-1.2"), D("0"), D("0.5"), D("1"), D("1.2"), D("1.7"), D("3"), D("8")], 4)
     n_shapes = rng.randint(1, 3)
     for i in range(n_shapes):
         s = S.new_shape(EX["RS%d" % i], None)
@@ -104,7 +107,7 @@ def gen_case(rng):
             s["comps"].append(("class", [rng.choice(S.CLASSES)]))
         s["order"] = orders[i]
         rs = []
-        rorders = rng.sample([0, 1, 2, 3, 4, 7], 3)
+        rorders = rng.sample([D("0"), D("0.2"), D("0.5"), D("1.2"), D("1.5"), D("2"), D("4"), D("7.5")], 3)
         for j in range(rng.randint(1, 3)):
             r = {"node": BNode("rule%d_%d_%06x" % (i, j, rng.getrandbits(24))), "order": rorders[j], "deact": rng.random() < 0.15,
                  "conds": rng.sample(conds, rng.choice([0, 0, 1, 1, 2]) if len(conds) >= 2 else rng.choice([0, 1]))}
@@ -118,6 +121,15 @@ def gen_case(rng):
                 r["kind"] = ("construct",) + CONSTRUCTS[4]
                 r["deact"] = False
             rs.append(r)
+        if i == 0 and rng.random() < 0.3:
+            # a dependent pair with orders that share their integer part, harvested in either order:
+            # the later rule copies what the earlier one derived
+            lo, hi = rng.choice([(D("1.2"), D("1.5")), (D("0"), D("0.5")), (D("-1.5"), D("-1.2")), (D("2"), D("2.25"))])
+            early = {"node": BNode("dep_e_%06x" % rng.getrandbits(24)), "order": lo, "deact": False, "conds": [],
+                     "kind": ("construct", [(("this",), ("const", EX.q), ("var", 1))], [(("this",), ("const", EX.p), ("var", 1))])}
+            late = {"node": BNode("dep_l_%06x" % rng.getrandbits(24)), "order": hi, "deact": False, "conds": [],
+                    "kind": ("construct", [(("this",), ("const", EX.s), ("var", 1))], [(("this",), ("const", EX.q), ("var", 1))])}
+            rs = [late, early] if rng.random() < 0.6 else [early, late]
         rules[s["id"]] = rs
         shapes.append(s)
     opts = {"iterate_rules": rng.random() < (0.8 if chain else 0.5)}
@@ -314,8 +326,8 @@ def srules_coq(I, case):
         for k, r in enumerate(case["rules"][s["id"]]):
             kind = ("RTriple (%s) (%s) (%s)" % tuple(nexpr_coq(I, e) for e in r["kind"][1:])) if r["kind"][0] == "triple" else \
                    "RConstruct %s %s" % (tpats_coq(I, r["kind"][1]), tpats_coq(I, r["kind"][2]))
-            rs.append("{| r_id := %d%%N; r_order := %d; r_deact := %s; r_conds := %s; r_kind := %s |}" % (k, r["order"], enc.coq_bool(r["deact"]), I.terms(r["conds"]), kind))
-        out.append("{| sr_shape := %s; sr_order := %d; sr_rules := [%s] |}" % (I.term(s["id"]), s["order"], "; ".join(rs)))
+            rs.append("{| r_id := %d%%N; r_order := %d; r_deact := %s; r_conds := %s; r_kind := %s |}" % (k, int(r["order"] * 10), enc.coq_bool(r["deact"]), I.terms(r["conds"]), kind))
+        out.append("{| sr_shape := %s; sr_order := %d; sr_rules := [%s] |}" % (I.term(s["id"]), int(s["order"] * 10), "; ".join(rs)))
     return "[%s]" % "; ".join(out)
 
 
